@@ -917,6 +917,18 @@ def placement_marks(text):
     return [(text.index("begin\n  ") + 8, 1, "stmt"), (text.rindex("end;"), 0, "closer")]
 
 
+# declarations the statement-oriented generators never produce (found with tools/coverage.py: branches of parser.rs no stream executed)
+RARE_DECLS = [
+    "library L;\n\nexports\n  Foo(A: Integer) name 'x' resident,\n  Bar index 3,\n  Baz,\n  Qux name 'q';\n\nbegin\nend.\n",
+    "unit U;\n\ninterface\n\nprocedure P; external name 'p';\nprocedure Q; external 'lib.dll' name 'q' delayed;\nfunction R(A: Integer): Integer; stdcall; external 'lib' index 5;\nprocedure S; external;\n\nimplementation\n\nend.\n",
+    "unit U;\n\ninterface\n\nvar\n  V: ^Integer;\n  W: ^^TFoo;\n\ntype\n  PRec = ^TRec;\n  TArr = array of ^Integer;\n  TProc = function(A: ^Byte): ^Byte;\n\nimplementation\n\nend.\n",
+    "program P;\n\nvar\n  X: Integer;\n\nbegin\n  case X of\n    1: Foo;\n    2..3: begin Bar; end;\n  else\n    Baz;\n  end;\n  case Y of 1: ; end;\nend.\n",
+    "unit U;\n\ninterface\n\ntype\n  TFoo = class\n    procedure A; virtual; abstract;\n    function B: Integer; message WM_USER; deprecated 'use C';\n    property P: Integer read FP write FP default 0; default;\n    class operator Add(A, B: TFoo): TFoo;\n  end;\n\nimplementation\n\nend.\n",
+    "package Pkg;\n\nrequires\n  rtl,\n  vcl;\n\ncontains\n  UnitA in 'UnitA.pas',\n  UnitB;\n\nend.\n",
+    "unit U;\n\ninterface\n\nfunction F(const A; var B; out C): Pointer; overload; inline; platform;\nprocedure G(A: array of const); cdecl; varargs;\n\nimplementation\n\nend.\n",
+]
+
+
 def grammar_program(rng):
     return GrammarGen(rng).program()
 
